@@ -16,46 +16,63 @@ struct vin_t { unsigned char b[32], c[32], s[64]; int a1; };
 struct vin_t nondet_vin(void);
 struct vin_t vin;
 VMISUSE_DEFINE
+#ifndef AVAL
+# define AVAL 1          /* 0 or 1 */
+#endif
+#ifndef AIDX
+# define AIDX 0
+#endif
 #ifndef RB
 # define RB 34
 #endif
+static const unsigned char ORDER_L[32] = { 0xed, 0xd3, 0xf5, 0x5c, 0x1a, 0x63, 0x12, 0x58, 0xd6, 0x9c, 0xf7, 0xa2, 0xde, 0xf9, 0xde, 0x14, 0, 0, 0, 0, 0, 0, 0, 0, 0, 0, 0, 0, 0, 0, 0, 0x10 };
 #ifndef VNATIVE
 typedef unsigned __CPROVER_bitvector[600] bv;
 static bv le_(const unsigned char *p, int n) { bv v = 0; int i; for (i = n - 1; i >= 0; i--) v = (v << 8) | p[i]; return v; }
-static bv order_(void) { static const unsigned char L[32] = { 0xed, 0xd3, 0xf5, 0x5c, 0x1a, 0x63, 0x12, 0x58, 0xd6, 0x9c, 0xf7, 0xa2, 0xde, 0xf9, 0xde, 0x14, 0, 0, 0, 0, 0, 0, 0, 0, 0, 0, 0, 0, 0, 0, 0, 0x10 }; return le_(L, 32); }
-/* T == out + q*L for some 0 <= q < 2^QB, decided by peeling the quotient bits from the top (no multiplier) */
+static bv order_(void) { return le_(ORDER_L, 32); }
+/* T == out + q*L for some 0 <= q < 2^qbits, decided by peeling the quotient bits from the top (no multiplier) */
 static int congruent_small_(bv T, bv out, int qbits) { bv d = T - out, L = order_(); int i; if (T < out) return 0; for (i = qbits - 1; i >= 0; i--) if (d >= (L << i)) d -= (L << i); return d == 0; }
+#else
+/* native replay: the same test on 80-byte little-endian arrays */
+typedef struct { unsigned char v[80]; } bv;
+static bv le_(const unsigned char *p, int n) { bv r; int i; memset(&r, 0, sizeof r); for (i = 0; i < n; i++) r.v[i] = p[i]; return r; }
+static int ge_(const bv *a, const bv *b) { int i; for (i = 79; i >= 0; i--) if (a->v[i] != b->v[i]) return a->v[i] > b->v[i]; return 1; }
+static void sub_(bv *a, const bv *b) { int i, bo = 0; for (i = 0; i < 80; i++) { int d = a->v[i] - b->v[i] - bo; bo = d < 0; a->v[i] = (unsigned char) d; } }
+static void add_(bv *a, const bv *b) { int i, c = 0; for (i = 0; i < 80; i++) { int d = a->v[i] + b->v[i] + c; c = d >> 8; a->v[i] = (unsigned char) d; } }
+static bv shl_(const bv *a, int n) { bv r; int i; memset(&r, 0, sizeof r); for (i = 0; i < 640; i++) { int j = i - n; if (j >= 0 && ((a->v[j >> 3] >> (j & 7)) & 1)) r.v[i >> 3] |= (unsigned char) (1 << (i & 7)); } return r; }
+static int below_order_(const unsigned char *o) { bv a = le_(o, 32), l = le_(ORDER_L, 32); return !ge_(&a, &l); }
+static int congruent_small_(bv T, bv out, int qbits) { bv d = T, L = le_(ORDER_L, 32), z; int i; memset(&z, 0, sizeof z); if (!ge_(&T, &out)) return 0; sub_(&d, &out); for (i = qbits - 1; i >= 0; i--) { bv s = shl_(&L, i); if (ge_(&d, &s)) sub_(&d, &s); } return ge_(&z, &d); }
 #endif
 
 void hf_muladd_01(void)
 {
     VIN_GET();
-    unsigned char a[32], out[32]; memset(a, 0, 32); a[0] = vin.a1 ? 1 : 0;
+    unsigned char a[32], out[32]; memset(a, 0, 32); a[AIDX] = AVAL;        /* a = AVAL * 2^(8*AIDX): a constant, so every limb product folds */
     sc25519_muladd(out, a, vin.b, vin.c);
 #ifndef VNATIVE
-    bv T = (vin.a1 ? le_(vin.b, 32) : (bv) 0) + le_(vin.c, 32), O = le_(out, 32);
-    VASSERT("sc25519_muladd(a, b, c) for a in {0,1}: the result is below the group order L", O < order_());
-    VASSERT("and congruent to a*b + c modulo L (exact integer arithmetic, every b, c below 2^256)", congruent_small_(T, O, 6));
+    bv T = (AVAL ? (le_(vin.b, 32) << (8 * AIDX)) : (bv) 0) + le_(vin.c, 32), O = le_(out, 32);
+    VASSERT("sc25519_muladd(a, b, c) for the constant a: the result is below the group order L", O < order_());
 #else
-    VASSERT("native replay: result canonical", sc25519_is_canonical(out));
+    bv T = le_(vin.c, 32), O = le_(out, 32), B = le_(vin.b, 32); int k;
+    for (k = 0; k < AVAL; k++) { bv sh = shl_(&B, 8 * AIDX); add_(&T, &sh); }
+    VASSERT("sc25519_muladd(a, b, c) for the constant a: the result is below the group order L", below_order_(out));
 #endif
+    VASSERT("and congruent to a*b + c modulo L (exact integer arithmetic, every b, c below 2^256)", congruent_small_(T, O, 8 * AIDX + 14));
     VREACH("hf_muladd_01");
 }
 void hf_reduce(void)
 {
     VIN_GET();
     unsigned char s[64]; int i; for (i = 0; i < 64; i++) s[i] = i < RB ? vin.s[i] : 0;
-#ifndef VNATIVE
-    bv T = le_(s, 64);
-#endif
+    bv T = le_(s, 64), O;
     sc25519_reduce(s);
+    O = le_(s, 32);
 #ifndef VNATIVE
-    bv O = le_(s, 32);
     VASSERT("sc25519_reduce(s): the result is below the group order L", O < order_());
-    VASSERT("and congruent to s modulo L (exact integer arithmetic)", congruent_small_(T, O, 8 * RB - 252 + 1));
 #else
-    VASSERT("native replay: result canonical", sc25519_is_canonical(s));
+    VASSERT("sc25519_reduce(s): the result is below the group order L", below_order_(s));
 #endif
+    VASSERT("and congruent to s modulo L (exact integer arithmetic)", congruent_small_(T, O, 8 * RB - 252 + 1));
     VREACH("hf_reduce");
 }
 VNATIVE_MAIN(VENTRY)
